@@ -316,6 +316,10 @@ def job_detuned(j, seed):
         if p.inconclusive:
             obs.append({'name': f'{tag}:path{k}', 'status': 'inconclusive', 'detail': p.inconclusive[:200], 't': 0})
             continue
+        if p.exc is not None and p.maybe_infeasible:
+            # a fork on this path could not be decided within its budget (solver 'unknown'): the path may not exist at all
+            obs.append({'name': f'{tag}:path{k}:frequency inside the tolerance accepted', 'status': 'inconclusive', 'detail': 'path of undecided feasibility ends in ' + repr(p.exc)[:120], 't': 0})
+            continue
         if p.exc is not None:
             obs.append({'name': f'{tag}:path{k}:frequency inside the tolerance accepted', 'status': 'violated', 'detail': repr(p.exc)[:200], 't': 0})
             m = C.solve([*C.CTX.assumptions, *p.pc])
